@@ -236,3 +236,175 @@ def r7(cx):
                    for org, lab, e in conds):
             cx.violation(cb.fn, 'unchecked-access:Borrowed', 'copy_fd hands out a descriptor without checking its '
                          'access mode', loc=cb.loc(s))
+
+
+PIPELINE = 'yash_semantics::command::pipeline::'
+
+
+@RS.rule('C09.R3', 'K-PASS', 'pipeline set-up failure: no pipe descriptor stays open in the shell on the failure exits')
+def r3(cx):
+    F = cx.F
+    # (a) PipeSet::shift: the failure of pipe() must not return with read_previous still open
+    sb = F.body(PIPELINE + 'PipeSet::shift')
+    cx.fn(sb.fn)
+    du = Q.DefUse(sb)
+    pipes = Q.find_calls(sb, ['*::Pipe::pipe'])
+    cx.require(len(pipes) == 1, 'expected one Pipe::pipe call in PipeSet::shift')
+    pb, pt = pipes[0]
+    cx.site('%s: pipe() at %s' % (sb.fn, sb.loc(pt)))
+    closers = {b for b, t in Q.find_calls(sb, [PIPELINE + 'PipeSet::close_all', '*::Close::close'])}
+    # blocks that close something AFTER the pipe() call (closes before it concern the old descriptors)
+    after = {b for b in closers if sb.dominates(pb, b)}
+    # failure exits: return-writing blocks reachable from pipe() that produce an Err
+    tainted = Q.forward_taint(sb, {pt['dest']['l']}, through_calls=Q.PROPAGATING_CALLS)
+    err_exits = []
+    for w in Q.return_writers(sb):
+        if not sb.dominates(pb, w):
+            continue
+        lab, what = Q.exit_label(sb, du, w)
+        if lab.startswith('Ok'):
+            continue
+        err_exits.append((w, lab, what))
+    cx.require(err_exits, 'no failure exit after pipe() in PipeSet::shift')
+    for w, lab, what in err_exits:
+        cx.site('%s: failure exit %s at %s' % (sb.fn, lab, sb.loc(sb.term(w))))
+        p = sb.shortest_path(pb, {w}, removed=after)
+        if p is not None:
+            cx.violation(sb.fn, 'exit:%s' % lab, 'when pipe() fails, shift returns through %s with the read end of the previous pipe '
+                         '(just stored in read_previous) still open' % what, loc=sb.loc(sb.term(w)), path=Q.render_path(sb, p))
+    # (b) execute_multi_command_pipeline: after a child could not be started the parent closes its pipe ends
+    eb = F.main_body(PIPELINE + 'execute_multi_command_pipeline')
+    cx.fn(eb.fn)
+    pid_calls = Q.find_calls(eb, [PIPELINE + 'pid_or_fail'])
+    cx.require(len(pid_calls) == 1, 'pid_or_fail call not found in execute_multi_command_pipeline')
+    closing = {b for b, t in Q.find_calls(eb, [PIPELINE + 'shift_or_fail', PIPELINE + 'PipeSet::shift', PIPELINE + 'PipeSet::close_all'])}
+    cb, ct = pid_calls[0]
+    cx.site('%s: pid_or_fail at %s; closing calls in blocks %s' % (eb.fn, eb.loc(ct), sorted(closing)))
+    p = Q.must_pass(eb, eb.succ(cb), closing)
+    if p:
+        cx.violation(eb.root, 'start-failure-exit', 'when a pipeline member cannot be started, the function returns without closing the pipe '
+                     'descriptors it still holds (read end of the previous pipe, both ends of the next one)',
+                     loc=eb.loc(ct), path=Q.render_path(eb, p))
+    # (c) the normal path ends with shift_or_fail(.., false) before the wait loop
+    waits = Q.find_calls(eb, ['*::wait_for_subshell_to_finish', '*::wait_for_subshell'])
+    cx.require(waits, 'no wait in execute_multi_command_pipeline')
+    du2 = Q.DefUse(eb)
+    finals = [(b, t) for b, t in Q.find_calls(eb, [PIPELINE + 'shift_or_fail']) if Q.arg_names(eb, du2, t)[-1] == 'const false']
+    cx.site('%s: shift_or_fail(.., false) sites: %d; waits: %d' % (eb.fn, len(finals), len(waits)))
+    for b, t in Q.check_dominated(eb, finals, waits):
+        cx.violation(eb.root, 'wait-before-final-shift', 'the shell waits for the pipeline while still holding pipe descriptors: '
+                     'the last reader never sees EOF', loc=eb.loc(t))
+
+
+OPEN_TABLE = {
+    # RedirOp variant -> (function, access, flags) ; POSIX XCU 2.7
+    'FileIn': ('open_file', 'ReadOnly', set()),
+    'FileOut': ('open_file', 'WriteOnly', {'Create', 'Truncate'}),
+    'FileClobber': ('open_file', 'WriteOnly', {'Create', 'Truncate'}),
+    'FileAppend': ('open_file', 'WriteOnly', {'Create', 'Append'}),
+    'FileInOut': ('open_file', 'ReadWrite', {'Create'}),
+    'FdIn': ('copy_fd', 'ReadOnly', None),
+    'FdOut': ('copy_fd', 'WriteOnly', None),
+    'Pipe': ('Err', None, None),
+    'String': ('Err', None, None),
+}
+
+
+def _names_in(node, prefix):
+    out = set()
+    for x in H.walk(node):
+        d = x.get('def') if x.get('k') == 'path' else None
+        if d and d.startswith(prefix):
+            out.add(d.split('::')[-1])
+    return out
+
+
+@RS.rule('C09.R6', 'K-TABLE', 'redirection operator -> open mode table equals the POSIX table; noclobber arm guarded by Clobber == Off')
+def r6(cx):
+    F = cx.F
+    fn = 'yash_semantics::redir::open_normal'
+    h = F.hir_of(fn)
+    cx.fn(fn)
+    ms = [m for m in H.matches_in(h['body']) if (m.get('sty') or '').endswith('RedirOp')]
+    cx.require(len(ms) == 1, 'match over RedirOp not found in open_normal')
+    m = ms[0]
+    loc = '%s:%d' % (h['file'], h['line'])
+    adt = 'yash_syntax::syntax::RedirOp'
+    guarded_seen = False
+    for v in H.enum_variants(F, adt):
+        name = v.split('::')[-1]
+        # first unguarded arm for this variant
+        arm = None
+        for a in m['arms']:
+            r = H.pat_matches_value(a['pat'], ('variant', v, None))
+            if r is True:
+                if a.get('guard'):
+                    if name != 'FileOut':
+                        cx.violation(fn, 'guarded:%s' % name, 'only `>` may have a guarded (noclobber) arm', loc=loc)
+                    else:
+                        guarded_seen = True
+                        g = a['guard']
+                        consts = _names_in(g, 'yash_env::option::')
+                        callee = [H.short(c.get('def') or '') for c in H.calls(a['body'])]
+                        cx.site('open_normal: FileOut if %s => %s' % (sorted(consts), callee))
+                        if not ({'Clobber', 'Off'} <= consts) or 'open_file_noclobber' not in callee:
+                            cx.violation(fn, 'noclobber-arm', '`>` under noclobber must be guarded by Clobber == Off and call open_file_noclobber',
+                                         loc=loc)
+                    continue
+                arm = a
+                break
+        cx.cellcount(1)
+        if name not in OPEN_TABLE:
+            cx.violation(fn, 'unclassified:%s' % name, 'redirection operator %s is not in the POSIX reference table' % name, loc=loc)
+            continue
+        want_fn, want_access, want_flags = OPEN_TABLE[name]
+        if arm is None:
+            cx.violation(fn, 'no-arm:%s' % name, 'no arm handles %s' % name, loc=loc)
+            continue
+        body = arm['body']
+        callee = [H.short(c.get('def') or '') for c in H.calls(body)]
+        access = _names_in(body, 'yash_env::system::file_system::OfdAccess::') | _names_in(body, 'yash_env::system::OfdAccess::')
+        flags = _names_in(body, 'yash_env::system::file_system::OpenFlag::') | _names_in(body, 'yash_env::system::OpenFlag::')
+        cx.sample({'op': name, 'calls': callee[:3], 'access': sorted(access), 'flags': sorted(flags)})
+        if want_fn == 'Err':
+            if any(c in ('open_file', 'copy_fd', 'open_file_noclobber') for c in callee):
+                cx.violation(fn, 'cell:%s' % name, '%s must be rejected as unsupported' % name, loc=loc)
+            continue
+        if want_fn not in callee:
+            cx.violation(fn, 'cell:%s' % name, '%s must be handled by %s (found calls %s)' % (name, want_fn, callee), loc=loc)
+            continue
+        if access != {want_access}:
+            cx.violation(fn, 'access:%s' % name, '%s must open %s, found %s' % (name, want_access, sorted(access)), loc=loc)
+        if want_flags is not None and flags != want_flags:
+            cx.violation(fn, 'flags:%s' % name, '%s must open with flags %s, found %s' % (name, sorted(want_flags), sorted(flags)), loc=loc)
+    if not guarded_seen:
+        cx.violation(fn, 'noclobber-arm-missing', 'no noclobber arm for `>`', loc=loc)
+    # open_file_noclobber: first open is Create|Exclusive; an existing regular file is refused
+    nb = F.main_body('yash_semantics::redir::open_file_noclobber')
+    cx.fn(nb.fn)
+    nh = F.hir_of('yash_semantics::redir::open_file_noclobber')
+    opens = [c for c in H.walk(nh['body']) if c.get('k') == 'mcall' and c.get('name') == 'open']
+    cx.require(len(opens) == 2, 'expected two open calls in open_file_noclobber')
+    first_flags = H.peel(opens[0]['a'][2])
+    fdef = first_flags.get('def') if first_flags.get('k') == 'path' else None
+    flagset = set()
+    if fdef and fdef in F.hir:
+        flagset = _names_in(F.hir[fdef]['body'], 'yash_env::system::file_system::OpenFlag::')
+    else:
+        flagset = _names_in(opens[0], 'yash_env::system::file_system::OpenFlag::')
+    cx.site('open_file_noclobber: first open flags %s' % sorted(flagset))
+    if flagset != {'Create', 'Exclusive'}:
+        cx.violation(nb.root, 'excl-open', 'the noclobber open must first try Create|Exclusive (found %s)' % sorted(flagset),
+                     loc='%s:%s' % (nh['file'], opens[0]['line']))
+    du = Q.DefUse(nb)
+    owned = Q.find_aggregates(nb, 'yash_semantics::redir::FdSpec', 'Owned')
+    reg = [x for lb in F.logical('yash_semantics::redir::open_file_noclobber') for x in Q.find_calls(lb, [re_is_regular()])]
+    cx.site('open_file_noclobber: is_regular_file checks: %d' % len(reg))
+    if not reg:
+        cx.violation(nb.root, 'no-regular-check', 'an existing file opened without O_EXCL is not tested for being a regular file',
+                     loc=nb.loc(nb.d))
+
+
+def re_is_regular():
+    import re
+    return re.compile(r'::is_regular_file$')
